@@ -122,8 +122,9 @@ def run(run):
             raise xl.MachineryError(f'design variant {bad} was not rejected by TLC (NoStale)')
         run.laws[f'variant {bad} rejected'] = rb.violated
     blocks = []
-    for cfg, maxlen in ((('C04_cases.cfg', 3), ('C04_cases_alt.cfg', 2)) if quick else
-                        (('C04_cases_thorough.cfg', 4), ('C04_cases_se_thorough.cfg', 5), ('C04_cases_alt.cfg', 2))):
+    run.tlc('MC_C04', 'C04_check_neg.cfg', timeout=900)
+    for cfg, maxlen in ((('C04_cases.cfg', 3), ('C04_cases_alt.cfg', 2), ('C04_cases_neg.cfg', 3)) if quick else
+                        (('C04_cases_thorough.cfg', 4), ('C04_cases_se_thorough.cfg', 5), ('C04_cases_alt.cfg', 2), ('C04_cases_neg_thorough.cfg', 4))):
         r = run.tlc('MC_C04', cfg, dump=True, timeout=2400)
         blocks += [b for b in pool.dump_blocks(r.dump) if b.count('op |->') >= maxlen + 1]   # maximal histories (obs + hist entries)
     maxlen = 4 if quick else 5
